@@ -9,6 +9,7 @@ import (
 	"io"
 	"os"
 	"runtime/debug"
+	"time"
 
 	"verif/internal/proto"
 )
@@ -51,6 +52,7 @@ func main() {
 		}
 		// BEGIN marker lets the controller attribute a process death to this case.
 		fmt.Fprintf(out, "BEGIN %s\n", c.ID)
+		t0 := time.Now()
 		f, ok := kinds[c.Kind]
 		var r *proto.Result
 		if !ok {
@@ -60,6 +62,7 @@ func main() {
 		}
 		r.ID = c.ID
 		r.Hooks = hooksOn
+		r.WallMS = time.Since(t0).Milliseconds()
 		b, err := json.Marshal(r)
 		if err != nil {
 			b, _ = json.Marshal(&proto.Result{ID: c.ID, Fatal: "marshal: " + err.Error()})
